@@ -21,6 +21,7 @@ import (
 	"strings"
 	"time"
 
+	sdkmath "cosmossdk.io/math"
 	skywaytypes "github.com/palomachain/paloma/v2/x/skyway/types"
 )
 
@@ -68,7 +69,7 @@ func (e *env) crossProducts(thorough bool) (prods []*prodT, tags []string, pool,
 	for _, t := range e.types {
 		def := e.build(t, nil, v0)
 		defKey := attKey(def)
-		defHash, _ := def.(skywaytypes.EthereumClaim).ClaimHash()
+		defHash, _ := safeHash(def.(skywaytypes.EthereumClaim))
 		type alpha struct {
 			f    *fieldT
 			toks []interface{}
@@ -83,7 +84,7 @@ func (e *env) crossProducts(thorough bool) (prods []*prodT, tags []string, pool,
 				if !bytes.Equal(attKey(m), defKey) {
 					blind = false
 				}
-				if h, _ := m.(skywaytypes.EthereumClaim).ClaimHash(); !bytes.Equal(h, defHash) {
+				if h, _ := safeHash(m.(skywaytypes.EthereumClaim)); !bytes.Equal(h, defHash) {
 					external = false
 				}
 			}
@@ -95,6 +96,12 @@ func (e *env) crossProducts(thorough bool) (prods []*prodT, tags []string, pool,
 				second = f.Dom[1]
 			}
 			a := alpha{f: f, toks: []interface{}{f.Dom[0], second}}
+			if n, ok := f.Dom[0].(sdkmath.Int); ok {
+				a.toks = []interface{}{n, n.Neg(), sdkmath.ZeroInt()}
+				if thorough {
+					a.toks = dedupe(append([]interface{}{n}, intVariants(n)[:3]...)) // n, -n, 0, 2^256-1
+				}
+			}
 			if isString(f.Dom[0]) && !external {
 				if m, _ := e.build(t, map[string]interface{}{f.Name: "a/b"}, v0).(validator); m != nil && m.ValidateBasic() == nil {
 					a.free = true
@@ -172,6 +179,17 @@ func (e *env) xcase(prods []*prodT, tier string, bi int, a, b member) caseT {
 	sort.Strings(names)
 	sig := "xtype-collision:" + strings.Join(names, "+") + ":" + strings.Join(fields, "+")
 	if pa.T == pb.T {
+		// same type: name the fields in which the two tuples differ
+		fields = nil
+		c1, c2 := pa.assignment(a.Idx), pb.assignment(b.Idx)
+		for _, f := range pa.T.Fields {
+			x, okx := c1[f.Name]
+			y, oky := c2[f.Name]
+			if okx && oky && show(x) != show(y) {
+				fields = append(fields, f.Name)
+			}
+		}
+		sort.Strings(fields)
 		sig = "collision:" + pa.T.Name + "." + strings.Join(fields, "+")
 	}
 	return caseT{
